@@ -235,10 +235,15 @@ class CachedStore(Entity):
             True if key existed in either cache or backing store.
         """
         existed_in_cache = key in self._cache
-        if existed_in_cache:
-            self._cache_remove(key)
 
         existed_in_store = yield from self._backing_store.delete(key)
+
+        # Drop the cached entry only once the backing store no longer has the
+        # key: until then reads are served from the cache instead of fetching
+        # (and re-caching) the value the backing store held before a
+        # write-back put that was never flushed.
+        if key in self._cache:
+            self._cache_remove(key)
         return existed_in_cache or existed_in_store
 
     def invalidate(self, key: str) -> None:
